@@ -90,3 +90,12 @@ Lemma rprop_inner_loop_uncapped_refuted :
   forall fuel, In fuel [1; 10; 100; 400; 1500]%nat ->
   fst (rprop NumF fail_after_first noHK noCS (mkRp 0.5 1.25 0.5 0.25 1%Z false false) fuel [1]) = OutOfFuel.
 Proof. intros fuel H. simpl in H. repeat (destruct H as [<- | H]; [vm_compute; reflexivity|]). destruct H. Qed.
+
+(* ---- F-ADAM-CAP-CONS: at the iteration cap adam returns the freshly updated point,
+   which was never evaluated nor submitted to the constraint callback *)
+Definition ge1 : nat -> list float -> bool := fun _ x => match x with [v] => PrimFloat.leb 1 v | _ => false end.
+Definition P4 : ad_params := mkAd 0x1.0624dd2f1a9fcp-10 0.5 0.5 0x1p-20 0x1.5798ee2308c3ap-27 1%Z false true.
+Lemma adam_cap_constraints_refuted :
+  exists x tr, adam_dense NumF Fsq noHK ge1 P4 10 [1] = (Cap x, tr) /\
+     ge1 0%nat x = false /\ submitted_and_accepted tr x = false.
+Proof. eexists; eexists; split; [vm_compute; reflexivity | split; vm_compute; reflexivity]. Qed.
